@@ -375,4 +375,101 @@ def EncodableKvs : List (Key × PV) → Bool
   | (k, v) :: rest => Encodable v && k.isStr && EncodableKvs rest
 end
 
+
+/-! ### what the round trip really returns (`norm`) and when (`Decodable`) -/
+
+/-- what a dict key looks like after `json.dumps`/`json.loads` -/
+def normKey : Key → Key
+  | .none => .str "null"
+  | .bool true => .str "true"
+  | .bool false => .str "false"
+  | .int i => .str (toString i)
+  | .str s => .str s
+  | .tuple => .tuple
+
+mutual
+/-- raw `Action.to_dict()` payload after the JSON round trip: tuples are lists, keys are strings -/
+def rawNorm : PV → PV
+  | .list xs => .list (rawNormList xs)
+  | .tuple xs => .list (rawNormList xs)
+  | .dict kvs => .dict (rawNormKvs kvs)
+  | v => v
+def rawNormList : List PV → List PV
+  | [] => []
+  | x :: xs => rawNorm x :: rawNormList xs
+def rawNormKvs : List (Key × PV) → List (Key × PV)
+  | [] => []
+  | (k, v) :: rest => (normKey k, rawNorm v) :: rawNormKvs rest
+end
+
+mutual
+/-- the value `json_to_state ∘ state_to_json` really returns (before the callbacks are re-created):
+    keys stringified, `functools.partial` dropped, raw action payloads JSON-normalised. -/
+def norm : PV → PV
+  | .partialFn => .none
+  | .list xs => .list (normList xs)
+  | .tuple xs => .tuple (normList xs)
+  | .set xs => .set (normList xs)
+  | .deque xs => .deque (normList xs)
+  | .dict kvs => .dict (normKvs kvs)
+  | .data cls kvs => .data cls (normKvs kvs)
+  | .railsConfig kvs => .railsConfig (normKvs kvs)
+  | .action uid name fu st ctx args sc => .action uid name fu st (rawNorm ctx) (rawNorm args) sc
+  | v => v
+def normList : List PV → List PV
+  | [] => []
+  | x :: xs => norm x :: normList xs
+def normKvs : List (Key × PV) → List (Key × PV)
+  | [] => []
+  | (k, v) :: rest => (normKey k, norm v) :: normKvs rest
+end
+
+/-- the key is accepted by `json.dumps` and does not read `"__type"` afterwards -/
+def keyPlain (k : Key) : Bool :=
+  match keyStr k with
+  | .ok s => s != "__type"
+  | .error _ => false
+
+def plainKeys : List (Key × PV) → Bool
+  | [] => true
+  | (k, _) :: rest => keyPlain k && plainKeys rest
+
+mutual
+/-- raw payload the decoder does not re-interpret: dumpable and no key that reads `"__type"` -/
+def RawPlain : PV → Bool
+  | .none | .bool _ | .int _ | .flt _ _ | .str _ => true
+  | .list xs => RawPlainList xs
+  | .tuple xs => RawPlainList xs
+  | .dict kvs => RawPlainKvs kvs
+  | _ => false
+def RawPlainList : List PV → Bool
+  | [] => true
+  | x :: xs => RawPlain x && RawPlainList xs
+def RawPlainKvs : List (Key × PV) → Bool
+  | [] => true
+  | (k, v) :: rest => RawPlain v && keyPlain k && RawPlainKvs rest
+end
+
+mutual
+/-- the encoder accepts the value and the decoder knows every class/member it mentions -/
+def Decodable : PV → Bool
+  | .none | .bool _ | .int _ | .flt _ _ | .str _ | .partialFn | .datetime _ => true
+  | .specType v => NemoVerif.Generated.C11.specTypeValues.contains v
+  | .enum cls name => enumOk cls name
+  | .list xs | .tuple xs | .set xs | .deque xs => DecodableList xs
+  | .dict kvs | .railsConfig kvs => DecodableKvs kvs
+  | .data cls kvs =>
+      DecodableKvs kvs && plainKeys kvs && isDataclassName cls && !reservedTags.contains cls
+        && ctorOk cls ((normKvs kvs).map fun kv => keyName kv.1)
+  | .action _ _ _ st ctx args _ => RawPlain ctx && RawPlain args && enumOk "ActionStatus" st
+  | .regex _ | .cmp | .other _ => false
+def DecodableList : List PV → Bool
+  | [] => true
+  | x :: xs => Decodable x && DecodableList xs
+def DecodableKvs : List (Key × PV) → Bool
+  | [] => true
+  | (k, v) :: rest => Decodable v && k.dumpable && DecodableKvs rest
+end
+
+
 end NemoVerif.Serialize
